@@ -1,14 +1,14 @@
-(** Executable glue for the C12 correspondence check (tie T2/T3): one case = one program on one table,
-    run on an engine session (statements read back through sqlglot as that dialect and executed on DuckDB)
-    and on the DuckDB session. *)
-From SF Require Export Model.ChainCheck C12.Engines.
+(** Executable glue for the C12 correspondence check (tie T2/T3): one case = one program (C01's wide alphabet)
+    on one table, run on an engine session (statements read back through sqlglot as that dialect and executed
+    on DuckDB) and on the DuckDB session. *)
+From SF Require Export Model.ChainCheckX C12.Engines.
 Open Scope string_scope.
 Open Scope list_scope.
 
 Record ecase := mkECase {
   e_input : frame;
-  e_ops : list uop;
-  e_mode : cmp_mode;
+  e_ops : list xop;
+  e_mode : xmode;
   e_exported : option (list block);              (* the tree the ENGINE session built, None if not exportable *)
   e_impl : option (list string * list row);      (* columns/rows collect() returned on the engine session *)
   e_duck : option (list string * list row) }.    (* columns/rows collect() returned on the DuckDB session *)
@@ -16,41 +16,44 @@ Record ecase := mkECase {
 Definition names_match (f : string -> string) (got ref : list string) : bool :=
   list_eqb (fun g r => name_match f g r) got ref.
 
-(** verdict: t2 | engine=model | engine=spec | engine~duck | in-domain | engine-raised | duck-raised
-    ("?" in every position when the engine has no clause configuration, i.e. overrides a core method) *)
-Definition echeck (oc : option cfg) (f : string -> string) (k : ecase) : string :=
+(** verdict: t2 | engine=model | engine=spec | engine~duck | in-domain | engine-raised | duck-raised   (2 = n/a;
+    "?" everywhere when the engine has no clause configuration, i.e. overrides a core method) *)
+Definition echeck (oc : option cfg) (deco : string -> option opk) (f : string -> string) (k : ecase) : string :=
   match oc with
   | None => "???????"
   | Some c =>
-      let ics := cols (e_input k) in
-      let ops := desugar_all ics (e_ops k) in
-      let d := compile c ops (init_df ics) in
-      let mblocks := done d ++ [cur d] in
-      let model := eval_chain mblocks (e_input k) in
-      let spec := spec_run ops (e_input k) in
+      let input := e_input k in
+      let ics := cols input in
+      let spec := spec_xrun (e_ops k) input in
       let pre := match e_mode k with
-                 | CmpSubOf _ => rows (spec_run (removelast ops) (e_input k))
-                 | _ => [] end in
-      let t2 := match e_exported k with
-                | Some bs => list_eqb block_eqb (nf ics bs) (nf ics mblocks)
-                | None => false end in
-      let dom := ops_ok c (init_df ics) ics ops in
+                 | XSubOf _ | XDedup _ => spec_xrun (removelast (e_ops k)) input
+                 | _ => mkFrame [] [] end in
+      let md := run_x c deco (init_df ics) (e_ops k) in
+      let mblocks := option_map (fun d => done d ++ [cur d]) md in
+      let model := option_map (fun bs => eval_chain bs input) mblocks in
+      let t2 := match mblocks, e_exported k with
+                | Some mb, Some bs => Some (list_eqb block_eqb (nf ics bs) (nf ics mb))
+                | _, _ => None end in
+      let dom := match all_core (e_ops k) with
+                 | Some us => ops_ok c (init_df ics) ics (desugar_all ics us)
+                 | None => false end in
       let vs (ref : frame) (r : list string * list row) :=
-          names_match f (fst r) (cols ref) && cmp_rows (e_mode k) (rows ref) pre (snd r) in
-      let em := match e_impl k with Some r => vs model r | None => false end in
+          names_match f (fst r) (cols ref) && cmp_x (e_mode k) (cols pre) (rows ref) (rows pre) (snd r) in
+      let em := match e_impl k, model with Some r, Some m => Some (vs m r) | _, _ => None end in
       let es := match e_impl k with Some r => vs spec r | None => false end in
       let ed := match e_impl k, e_duck k with
                 | Some r, Some q =>
                     names_match f (fst r) (fst q)
                     && match e_mode k with
-                       | CmpSeq => rows_eqb (snd q) (snd r)
-                       | CmpBag => bag_eqb (snd q) (snd r)
-                       | CmpSubOf n => Nat.eqb (List.length (snd q)) (List.length (snd r))
-                                       && subbag (snd r) pre && subbag (snd q) pre
+                       | XSeq => rows_eqb (snd q) (snd r)
+                       | XBag => bag_eqb (snd q) (snd r)
+                       | m => Nat.eqb (List.length (snd q)) (List.length (snd r))
+                              && cmp_x m (cols pre) (rows spec) (rows pre) (snd r)
+                              && cmp_x m (cols pre) (rows spec) (rows pre) (snd q)
                        end
                 | _, _ => false
                 end in
-      (b2s t2 ++ b2s em ++ b2s es ++ b2s ed ++ b2s dom
+      (t2s t2 ++ t2s em ++ b2s es ++ b2s ed ++ b2s dom
            ++ b2s (match e_impl k with None => true | _ => false end)
            ++ b2s (match e_duck k with None => true | _ => false end))%string
   end.
